@@ -20,7 +20,12 @@ PKT_NAMES = ["Logon", "Logout", "Heartbeat", "NewOrder", "Cancel", "ExecReport",
              "Status", "Detail", "Leg", "Party", "Ack", "Snapshot", "Entry"]
 FLD_NAMES = ["MsgType", "BodyLen", "Body", "SeqNum", "ClOrdID", "Price", "Qty", "Side", "Symbol", "Account", "Text",
              "Flags", "Count", "Ts", "UserName", "Password", "Rate", "Venue", "Kind", "Code", "Memo", "Tag", "Level",
-             "OrdType", "Tif", "Ccy", "Checksum", "Legs", "Parties", "Extra", "Note", "Ref"]
+             "OrdType", "Tif", "Ccy", "Checksum", "Legs", "Parties", "Extra", "Note", "Refs"]
+# field names whose snake / lowerCamel form is a reserved word of at least one target language (C07 profile "kw")
+KEYWORD_NAMES = ["Ref", "Type", "Class", "Default", "Match", "Use", "Move", "Loop", "Mod", "Struct", "Enum", "Final", "New", "For", "If",
+                 "In", "Is", "Not", "Pass", "Def", "Try", "Int", "Long", "Short", "Float", "Double", "Void", "Auto", "Const", "Switch",
+                 "Case", "Do", "Return", "This", "Throw", "Union", "Using", "While", "Fn", "Let", "Mut", "Pub", "Impl", "Where", "As",
+                 "Lambda", "Import", "From", "Global", "With", "Yield", "Package", "Interface"]
 ODD_NAMES = ["msg_type", "a1b", "_x", "HTTPServer2", "clOrdId", "x", "ID", "my_Field"]
 
 
